@@ -180,6 +180,11 @@ func (r *Reporter) Sample(v any) {
 
 // Close flushes counters and marks the shard as finished.
 func (r *Reporter) Close() {
+	if p := recover(); p != nil {
+		// the test function is panicking: do not mark the shard as finished
+		r.emit(map[string]any{"ev": "panic", "detail": fmt.Sprint(p)})
+		panic(p)
+	}
 	r.mu.Lock()
 	d := map[string][]string{}
 	for n, m := range r.distinct {
